@@ -251,6 +251,17 @@ func runCase(w *lib.Writer, in input, g *Generated, lays []Layout) {
 				fail(fmt.Sprintf("getinfo(func,'Sl') = %v disagrees with getinfo(level) %+v", bf, fi))
 			}
 		}
+		// a level lost to a tail call: what = "tail", no variables
+		for _, l := range g.Lines {
+			if l.Mode == "none" && l.Src.Kind == "cur" {
+				if fi, ok := res.Info[[2]int{l.Src.Pt, l.Src.Lvl}]; ok && fi.What != "tail" {
+					fail(fmt.Sprintf("point %d level %d is a frame lost to a tail call, getinfo says what=%q", l.Src.Pt, l.Src.Lvl, fi.What))
+				}
+				if n := len(res.Locals[key3{l.Src.Pt, l.Src.Lvl, 0}]); n > 0 {
+					fail(fmt.Sprintf("point %d level %d (tail call): getlocal enumerates %d variables", l.Src.Pt, l.Src.Lvl, n))
+				}
+			}
+		}
 		var lines []int
 		for _, l := range g.Lines {
 			v := -1
@@ -310,8 +321,11 @@ func runCase(w *lib.Writer, in input, g *Generated, lays []Layout) {
 	var lds, sds, stds, uds, usds, fns []string
 	for _, l := range g.Lines {
 		mode := "LRange"
-		if l.Mode == "exact" {
+		switch l.Mode {
+		case "exact":
 			mode = "LExact"
+		case "none":
+			mode = "LNone"
 		}
 		lds = append(lds, fmt.Sprintf("(LDesc %s %d %d)", mode, l.SpecTok(), l.ImplTok()))
 	}
